@@ -558,7 +558,9 @@ func runC18(w *eng.W) {
 		v int64
 	}{{"1e18", 1e18}, {"9e18", 9e18}, {"(-9e18)", -9e18}, {"5e18", 5e18}, {"(3e9 * 3e9)", 9e18}, {"toFloat('4e18')", 4e18}, {"90e17", 9e18}, {"9.2e18", 9200000000000000000}, {"1e17", 1e17},
 		{"123e16", 1230000000000000000}, {"0.9e19", 9e18}, {"9000000000e9", 9e18}, {"(2e18 + 2e18)", 4e18}, {"1e0", 1}, {"1e1", 10}, {"12e2", 1200}, {"(-1e18)", -1e18}, {"1000e-3", 1}, {"7e15", 7e15}, {"1e9", 1e9},
-		{"(1e19 / 10)", 1e18}, {"(-3e18 * 3)", -9e18}, {"9223372036854775807", math.MaxInt64}, {"1", 1}, {"(-1)", -1}}
+		{"(1e19 / 10)", 1e18}, {"(-3e18 * 3)", -9e18}, {"9223372036854775807", math.MaxInt64}, {"1", 1}, {"(-1)", -1},
+		// non-integers of 20 and more digits (quotients): the operators act on the value truncated toward zero
+		{"(23/3)", 7}, {"(-23/3)", -7}, {"7.50000000000000000001", 7}, {"(5/3)", 1}, {"(200/3)", 66}, {"0.99999999999999999999", 0}, {"(-0.99999999999999999999)", 0}, {"(1e20/3 - 33333333333333333000)", 333}}
 	for _, a := range spelled {
 		if !w.Take() {
 			continue
